@@ -24,7 +24,12 @@ pub fn user_pcs(p: &Prog) -> Vec<u64> {
 }
 
 pub fn new_line(id: &str, p: &Prog) -> String {
-    let pcs: BTreeSet<u64> = p.trace.iter().map(|s| s.pc).collect();
+    // original bytes the model may need: every executed pc and every byte of every function the trace enters
+    // (breakpoints and temporaries are only ever placed inside such functions)
+    let mut pcs: BTreeSet<u64> = p.trace.iter().map(|s| s.pc).collect();
+    let mut fns: BTreeSet<(u64, u64)> = BTreeSet::new();
+    for a in pcs.clone() { if let Some((s, n, _)) = p.fn_of(a) { fns.insert((*s, *n)); } }
+    for (s, n) in fns { for a in s..s + n { pcs.insert(a); } }
     format!("{id} new {} {:x} {} {} {}", p.name, p.entry, p.exit_code,
         enc_list(&p.trace, |s| format!("{:x}", s.pc)),
         enc_list(&pcs.iter().collect::<Vec<_>>(), |a| format!("{:x}:{:x}", a, p.orig_byte(**a).unwrap_or(0))))
@@ -170,7 +175,7 @@ pub fn exec(req: &[String], out: &mut Out, tmpdir: &std::path::Path) {
         if l.starts_with("C01 new ") || sessions.is_empty() { sessions.push(vec![]); }
         sessions.last_mut().unwrap().push(l.clone());
     }
-    let results = run_sessions(&sessions, tmpdir, "c01", par_default(), 60, |s, emit| session(s, emit));
+    let results = run_sessions(&sessions, tmpdir, "c01", par_default(), session_timeout(), |s, emit| session(s, emit));
     for (i, (s, (lines, how))) in sessions.iter().zip(results).enumerate() {
         let mut answers: Vec<String> = vec![];
         for l in lines {
